@@ -36,6 +36,8 @@ type Nested struct {
 	Ignore bool
 	// Focus is set in lookahead-focus mode (see GenNested).
 	Focus bool
+	// MergeFocus is set in merge-focus mode (see GenNested).
+	MergeFocus bool
 	// Patterns lists, for every rule and for the ligature, a glyph sequence
 	// its pattern (backtrack, input, lookahead) matches.
 	Patterns [][]glyph.ID
@@ -78,8 +80,18 @@ func GenNested(t *rapid.T, opt NestedOptions) *Nested {
 	// before it inherits exactly its input and calls it at the first glyph -
 	// the callee's lookahead then lies just behind the caller's match window
 	focus := !opt.Wild && rapid.IntRange(0, 4).Draw(t, "lookaheadFocus") == 0
+	// merge focus (an eighth of the other cases): the ligature starts at a
+	// mark, the innermost context P (no skipping) has that mark and the
+	// ligature's second component as its second and third input glyph and
+	// applies the ligature at the mark, and the context G before it
+	// skips the mark, has the ligature's second component as its second input
+	// glyph, calls P first and has further actions pending meanwhile - the
+	// glyphs the ligature merges begin outside G's input sequence and end
+	// inside it
+	mergeFocus := !focus && rapid.IntRange(0, 7).Draw(t, "mergeFocus") == 0
 	res.NumCtx = nCtx
 	res.Focus = focus
+	res.MergeFocus = mergeFocus
 	const nLeaf = 3
 	total := nCtx + nLeaf
 	res.Coherent = rapid.IntRange(0, 3).Draw(t, "coherent") != 0 || focus
@@ -104,9 +116,21 @@ func GenNested(t *rapid.T, opt NestedOptions) *Nested {
 	firstOf[nCtx+1] = sFrom
 	patOf[nCtx+1] = []glyph.ID{sFrom}
 	lFirst := g("ligFirst")
+	if rapid.IntRange(0, 5).Draw(t, "ligFirstMark") == 0 {
+		// a ligature that starts at a mark: for an outer rule whose flags skip
+		// that mark the merged glyphs begin outside its input sequence and
+		// may end inside it
+		lFirst = rapid.SampledFrom([]glyph.ID{5, 6}).Draw(t, "ligFirstMarkGlyph")
+	}
+	if mergeFocus {
+		lFirst = rapid.SampledFrom([]glyph.ID{5, 6}).Draw(t, "mergeFocusMark")
+	}
 	ligIn := make([]glyph.ID, rapid.SampledFrom([]int{1, 2, 2}).Draw(t, "ligLen"))
 	for k := range ligIn {
 		ligIn[k] = gm("ligIn")
+	}
+	if mergeFocus {
+		ligIn = []glyph.ID{g("mergeFocusSecond")}
 	}
 	if rapid.IntRange(0, 3).Draw(t, "ligMarkLast") == 0 {
 		// base + mark ligatures: a caller that ignores the mark has it
@@ -119,7 +143,11 @@ func GenNested(t *rapid.T, opt NestedOptions) *Nested {
 	if rapid.IntRange(0, 2).Draw(t, "ligOutSame") == 0 {
 		ligOut = lFirst
 	}
-	ll[nCtx+2] = &gtab.LookupTable{Meta: meta(4, "ligFlags"),
+	ligMeta := meta(4, "ligFlags")
+	if mergeFocus {
+		ligMeta.LookupFlags, ligMeta.MarkFilteringSet = 0, 0
+	}
+	ll[nCtx+2] = &gtab.LookupTable{Meta: ligMeta,
 		Subtables: []gtab.Subtable{&gtab.Gsub4_1{Cov: CovTable([]glyph.ID{lFirst}), Repl: [][]gtab.Ligature{{{In: ligIn, Out: ligOut}}}}}}
 	firstOf[nCtx+2] = lFirst
 	patOf[nCtx+2] = append([]glyph.ID{lFirst}, ligIn...)
@@ -129,6 +157,14 @@ func GenNested(t *rapid.T, opt NestedOptions) *Nested {
 	// action may call are known
 	for i := nCtx - 1; i >= 0; i-- {
 		ctxFlags := flags("ctxFlags")
+		mergeP := mergeFocus && i == nCtx-1
+		mergeG := mergeFocus && i == nCtx-2
+		if mergeP {
+			ctxFlags = fl{0, 0}
+		} else if mergeG {
+			// a flag word that skips the ligature's first glyph (set k keeps mark 5+k only)
+			ctxFlags = rapid.SampledFrom([]fl{{gtab.IgnoreMarks, 0}, {gtab.UseMarkFilteringSet, uint16(6 - lFirst)}}).Draw(t, "mergeFocusFlags")
+		}
 		// kept tells whether the context's own flags let it see glyph x
 		kept := func(x glyph.ID) bool {
 			if x != 5 && x != 6 {
@@ -151,9 +187,20 @@ func GenNested(t *rapid.T, opt NestedOptions) *Nested {
 		for k := range input {
 			input[k] = gm("ctxInput")
 		}
+		if mergeP {
+			// (the components of the ligature must lie inside P's window)
+			nIn, input = 2, []glyph.ID{lFirst, ligIn[0]}
+		} else if mergeG {
+			first = firstOf[nCtx-1]
+			input = []glyph.ID{ligIn[0]}
+			if rapid.Bool().Draw(t, "mergeFocusTail") {
+				input = append(input, g("mergeFocusTailGlyph"))
+			}
+			nIn = len(input)
+		}
 		inherit := -1
 		focusCaller := focus && i == nCtx-2
-		if focusCaller || (res.Coherent && rapid.IntRange(0, 2).Draw(t, "inheritPattern") != 0) {
+		if focusCaller || (!mergeP && !mergeG && res.Coherent && rapid.IntRange(0, 2).Draw(t, "inheritPattern") != 0) {
 			// the input sequence is the pattern of a later lookup, with marks
 			// drawn into the gaps and possibly a tail: whether the callee
 			// matches inside the caller's window is then a question of the
@@ -191,11 +238,14 @@ func GenNested(t *rapid.T, opt NestedOptions) *Nested {
 			if len(seq) > 5 {
 				seq = seq[:5]
 			}
+			if len(seq) > 5 {
+				seq = seq[:5]
+			}
 			if !exact && len(seq) > 1 && rapid.IntRange(0, 3).Draw(t, "inheritPrefix") == 0 {
 				// only a prefix: the callee reaches beyond the caller's input
 				seq = seq[:rapid.IntRange(1, len(seq)-1).Draw(t, "inheritPrefixLen")]
 			}
-			if res.Gdef.GlyphClass[seq[0]] != gdef.GlyphClassMark {
+			if len(seq) > 0 && res.Gdef.GlyphClass[seq[0]] != gdef.GlyphClassMark {
 				first, input, nIn = seq[0], seq[1:], len(seq)-1
 				res.Inherit = true
 			} else {
@@ -216,6 +266,9 @@ func GenNested(t *rapid.T, opt NestedOptions) *Nested {
 		nAct := rapid.IntRange(1, 4).Draw(t, "nActions")
 		if opt.Wild && rapid.IntRange(0, 4).Draw(t, "manyActions") == 0 {
 			nAct = rapid.IntRange(60, 90).Draw(t, "nActionsMany")
+		}
+		if mergeG && nAct < 2 {
+			nAct = 2
 		}
 		var actions []gtab.SeqLookup
 		for k := 0; k < nAct; k++ {
@@ -247,6 +300,11 @@ func GenNested(t *rapid.T, opt NestedOptions) *Nested {
 			}
 			if li < 0 {
 				li = rapid.IntRange(lo, hi).Draw(t, "actLookup")
+			}
+			if k == 0 && mergeP {
+				idx, li = 1, nCtx+2
+			} else if k == 0 && mergeG {
+				idx, li = 0, nCtx-1
 			}
 			actions = append(actions, gtab.SeqLookup{SequenceIndex: uint16(idx), LookupListIndex: gtab.LookupIndex(li)})
 		}
